@@ -154,7 +154,7 @@ def run(ctx):
                 if not raised and rep == 0:
                     flat = [np.asarray(a_) for a_ in arrays_in((out,), {})] if not np.isscalar(out) else [np.asarray(out)]
                     base = ref_out.setdefault(ci // 3, flat)
-                    if base is not flat and (len(base) != len(flat) or any(a_.shape != b_.shape or not np.allclose(a_, b_, rtol=1e-10, atol=1e-12, equal_nan=True) for a_, b_ in zip(base, flat))):
+                    if base is not flat and (len(base) != len(flat) or any(a_.shape != b_.shape or not core.allclose(a_, b_, rtol=1e-10, atol=1e-12, equal_nan=True) for a_, b_ in zip(base, flat))):
                         r.violations.append(core.Violation(["C02"], "purity", {"kind": "layout_dependent", "function": name, "layout": mode},
                                                            "%s: the result for %s-ordered arguments differs from the result for the same values in C order" % (name, mode), {}))
         traces.append({"id": name, "ev": ev})
